@@ -60,6 +60,7 @@ type Contract struct {
 	Clauses []*Clause
 	Trusted string
 	Nilable bool // receiver may be nil
+	UnreachableReturns int // returns that are expected to be unreachable under the contract
 	Line    int
 	Lemma   bool
 }
@@ -79,11 +80,12 @@ type ContractFile struct {
 	Pures     map[string]*PureDef
 	Ghost     []GhostField
 	Immutable []string
+	Stable    []string
 	Lines     int
 }
 type GhostField struct{ Type, Field, Sort string }
 
-var reClause = regexp.MustCompile(`^(requires|ensures|modifies|decreases|trusted|nilable|hint)(\[[A-Z0-9,]+\])?\s*(.*)$`)
+var reClause = regexp.MustCompile(`^(requires|ensures|modifies|decreases|trusted|nilable|hint|assume|preserves|unreachable-returns)(\[[A-Z0-9,]+\])?\s*(.*)$`)
 var reLoop = regexp.MustCompile(`^loop\s+(\d+)\s+(invariant|decreases|modifies|hint)(\[[A-Z0-9,]+\])?\s+(.*)$`)
 var rePure = regexp.MustCompile(`^(?:pure|arith)\s+([A-Za-z_][A-Za-z0-9_]*)\s*\(([^)]*)\)\s*:\s*([A-Za-z0-9_\[\]\*\.]+)\s*=\s*(.*)$`)
 var reGhost = regexp.MustCompile(`^ghost\s+field\s+([A-Za-z_][A-Za-z0-9_]*)\.([A-Za-z_][A-Za-z0-9_]*)\s*:\s*(.*)$`)
@@ -175,6 +177,13 @@ func parseContractFile(path string) (*ContractFile, error) {
 			}
 			cf.Ghost = append(cf.Ghost, GhostField{m[1], m[2], strings.TrimSpace(m[3])})
 			cur = nil
+		case strings.HasPrefix(t, "stable "):
+			for _, f := range strings.Split(t[len("stable "):], ",") {
+				if f = strings.TrimSpace(f); f != "" {
+					cf.Stable = append(cf.Stable, f)
+				}
+			}
+			cur = nil
 		case strings.HasPrefix(t, "immutable "):
 			cf.Immutable = append(cf.Immutable, strings.TrimSpace(t[len("immutable "):]))
 			cur = nil
@@ -216,6 +225,13 @@ func parseContractFile(path string) (*ContractFile, error) {
 				continue
 			case "nilable":
 				cur.Nilable = true
+				continue
+			case "unreachable-returns":
+				n, err := strconv.Atoi(strings.Fields(m[3] + " x")[0])
+				if err != nil {
+					return nil, fail(err)
+				}
+				cur.UnreachableReturns = n
 				continue
 			case "modifies":
 				if strings.TrimSpace(m[3]) != "" && strings.TrimSpace(m[3]) != "nothing" {
